@@ -145,6 +145,18 @@ namespace sim
   };
 
   static World* W = nullptr;
+}
+// hooks of the "race" flavour (sim/race_rt.cpp); absent in the other flavours
+extern "C"
+{
+  void sim_race_rt_begin() __attribute__((weak));
+  void sim_race_rt_end(unsigned long long* counters) __attribute__((weak));
+  void sim_race_rt_pause(int on) __attribute__((weak));
+}
+namespace sim
+{
+  NoRace::NoRace() { if(sim_race_rt_pause) sim_race_rt_pause(1); }
+  NoRace::~NoRace() { if(sim_race_rt_pause) sim_race_rt_pause(0); }
   static thread_local Task* t_task = nullptr;
   static thread_local bool t_in_model = false;
 
@@ -651,10 +663,13 @@ namespace sim
     t->body = std::move(body);
     if(t_task)
     {
-      ++t_task->vc[size_t(t_task->id)];
+      // the child starts with what its creator knew at the creation; the creator moves on to a new epoch, so that
+      // what it does afterwards is not ordered before the child
       t->vc = t_task->vc;
-      t->vc[size_t(t->id)] = 0;
+      t->vc[size_t(t->id)] = 1;
+      ++t_task->vc[size_t(t_task->id)];
     }
+    else t->vc[size_t(t->id)] = 1;
     pthread_attr_t attr;
     pthread_attr_init(&attr);
     pthread_attr_setstacksize(&attr, size_t(64) << 20);
@@ -674,9 +689,9 @@ namespace sim
     t->start_arg = arg;
     t->via_seam = true;
     t->parent = t_task->id;
-    ++t_task->vc[size_t(t_task->id)];
     t->vc = t_task->vc;
-    t->vc[size_t(t->id)] = 0;
+    t->vc[size_t(t->id)] = 1;
+    ++t_task->vc[size_t(t_task->id)];
     t->state = Task::RUNNABLE;
     int rc = real::tab().create(&t->real_thread, nullptr, trampoline, t);
     if(rc != 0) fail("INFRA", "pthread_create failed");
@@ -720,7 +735,7 @@ namespace sim
       handlers = true;
       signal(SIGABRT, on_sigabrt);
       signal(SIGALRM, on_sigalrm);
-#ifdef SIM_FLAVOUR_GUARD
+#if defined(SIM_FLAVOUR_GUARD) || defined(SIM_FLAVOUR_RACE)
       // no sanitizer runtime in this flavour: a wild access must still end the run as a violation with its trace
       // (in the sanitizer flavour ASan owns SIGSEGV and reports through abort())
       {
@@ -758,6 +773,7 @@ namespace sim
     if(!o.replay)
       for(int i = 0; i < W->pct_d; ++i) W->pct_points.push_back(1 + W->rng.uniform(W->pct_len));
     if(W->strategy == 3 && W->preempt_pm == 0) W->preempt_pm = 50;
+    if(sim_race_rt_begin) sim_race_rt_begin();
   }
 
   void run_go()
@@ -779,6 +795,15 @@ namespace sim
   Stats run_end()
   {
     alarm(0);
+    if(sim_race_rt_end)
+    {
+      unsigned long long c[4] = {0, 0, 0, 0};
+      sim_race_rt_end(c);
+      if(c[0]) probe("race_detector_accesses_checked", c[0]);
+      if(c[1]) probe("race_detector_locations_tracked", c[1]);
+      if(c[2]) probe("race_detector_atomic_and_guard_syncs", c[2]);
+      if(c[3]) probe("race_detector_locations_untracked", c[3]);
+    }
     finalize_stats();
     if(W->opt.keep_trace) write_trace(W->opt.trace_out);
     Stats s = W->st;
